@@ -320,6 +320,79 @@ static _Bool p_c19_list_step(const struct cat_object *s)
                s->write_state_after == CAT_STATE_PRINT_CMD && s->index == g_old.index && s->cmd_type == t + 1 && s->length == 1 && x_text_is(ABUFP, H_CAPA, exp, n);
 }
 
+/* ---- C19 for unsolicited TEST events: same text, event half, no result code (failure = event abandoned) ---- */
+static uint8_t p_old_ubyte(size_t i)
+{
+#if H_SHARED
+        return g_oldbuf[(H_BUFSZ >> 1) + i];
+#else
+        return g_oldubuf[i];
+#endif
+}
+
+static _Bool pe_c19_finish(const struct cat_object *s, char *exp, size_t n)
+{
+        const struct cat_command *c = p_norm_cmd(g_old.unsolicited_fsm.cmd);
+        if (c->description != NULL) {
+                n = x_put(exp, n, &h_crlf[s->cr_flag ? 0 : 1], 2);
+                n = x_put(exp, n, c->description, H_NL);
+        }
+        if (n >= H_CAPU)
+                return p_ev_finished(s);                          /* does not fit: abandoned, never a truncated line */
+        if (!x_text_is(UBUFP, H_CAPU, exp, n))
+                return 0;
+        return (c->test != NULL) ? (UST(s) == CAT_UNSOLICITED_STATE_TEST_LOOP && UF(s).position == n) : p_ev_unit_started(s, CAT_UNSOLICITED_STATE_AFTER_FLUSH_OK);
+}
+
+static _Bool pe_c19_test_step(const struct cat_object *s)
+{
+        char exp[X_MAXTXT];
+        size_t i, n = g_old.unsolicited_fsm.position, m;
+        const struct cat_command *c = p_norm_cmd(g_old.unsolicited_fsm.cmd);
+        for (i = 0; i < X_MAXTXT; i++)
+                exp[i] = (i < H_CAPU && i < n) ? (char)p_old_ubyte(i) : 0;
+        m = x_token(exp, n, &c->var[g_old.unsolicited_fsm.index], H_NL);
+        if (m == (size_t)-1 || m >= H_CAPU)
+                return p_ev_finished(s);
+        if (g_old.unsolicited_fsm.index + 1 < c->var_num) {
+                m = x_put(exp, m, ",", 1);
+                if (m > H_CAPU)
+                        return p_ev_finished(s);
+                if (!(UST(s) == CAT_UNSOLICITED_STATE_FORMAT_TEST_ARGS && UF(s).index == g_old.unsolicited_fsm.index + 1 && UF(s).var == &c->var[UF(s).index] && UF(s).position == m))
+                        return 0;
+                for (i = 0; i < X_MAXTXT; i++)
+                        if (i < m && i < H_CAPU && UBUFP[i] != exp[i])
+                                return 0;
+                return 1;
+        }
+        return pe_c19_finish(s, exp, m);
+}
+
+static _Bool pe_c19_test_start(const struct cat_object *s, const struct cat_command *cmd)
+{
+        char exp[X_MAXTXT];
+        size_t i, n = 0;
+        const struct cat_command *c = p_norm_cmd(cmd);
+        for (i = 0; i < X_MAXTXT; i++)
+                exp[i] = 0;
+        n = x_put(exp, n, c->name, H_NL);
+        n = x_put(exp, n, "=", 1);
+        if (n >= H_CAPU)
+                return p_ev_finished(s);
+        if (p_has_vars(c))
+                return UST(s) == CAT_UNSOLICITED_STATE_FORMAT_TEST_ARGS && UF(s).index == 0 && UF(s).var == &c->var[0] && UF(s).position == n && x_text_is(UBUFP, H_CAPU, exp, n);
+        /* finishing part with the command of the event */
+        if (c->description != NULL) {
+                n = x_put(exp, n, &h_crlf[s->cr_flag ? 0 : 1], 2);
+                n = x_put(exp, n, c->description, H_NL);
+        }
+        if (n >= H_CAPU)
+                return p_ev_finished(s);
+        if (!x_text_is(UBUFP, H_CAPU, exp, n))
+                return 0;
+        return (c->test != NULL) ? (UST(s) == CAT_UNSOLICITED_STATE_TEST_LOOP && UF(s).position == n) : p_ev_unit_started(s, CAT_UNSOLICITED_STATE_AFTER_FLUSH_OK);
+}
+
 #include "variant.h"
 #define EV_FAIR    ((E.wr_calls == OLD(E.wr_calls) || E.wr_ok) && (!(E.h_calls == OLD(E.h_calls) + 1) || v_terminal(E.h_ret)) && E.reent_trig == OLD(E.reent_trig))
 #define EV_BLOCKED (OLD(UST(self)) == CAT_UNSOLICITED_STATE_FLUSH_IO_WRITE_WAIT && ST(self) == CAT_STATE_FLUSH_IO_WRITE)
@@ -365,6 +438,10 @@ __CPROVER_assigns(EVENT_ASSIGNS)
 /* ---- C13: the queue is consumed only by an idle event machine, one event per step, head first ---- */
 #define RING_CNT(s) (UF(s).unsolicited_cmd_buffer_items_count)
 #define RING_HEAD(s) (UF(s).unsolicited_cmd_buffer_head)
+/* ---- C19: TEST response of an unsolicited event, text level ---- */
+/* [C19:ev-test-token-step] */ __CPROVER_ensures(EV_OLD_ST == CAT_UNSOLICITED_STATE_FORMAT_TEST_ARGS ==> pe_c19_test_step(self))
+/* [C19:ev-test-restart] */ __CPROVER_ensures(EV_OLD_ST == CAT_UNSOLICITED_STATE_AFTER_FLUSH_FORMAT_TEST_ARGS ==> pe_c19_test_start(self, g_old.unsolicited_fsm.cmd))
+/* [C19:ev-test-start]   */ __CPROVER_ensures((EV_OLD_ST == CAT_UNSOLICITED_STATE_IDLE && OLD(RING_CNT(self)) > 0 && g_old.unsolicited_fsm.unsolicited_cmd_buffer[g_old.unsolicited_fsm.unsolicited_cmd_buffer_head].type == CAT_CMD_TYPE_TEST) ==> pe_c19_test_start(self, g_old.unsolicited_fsm.unsolicited_cmd_buffer[g_old.unsolicited_fsm.unsolicited_cmd_buffer_head].cmd))
 /* [C13:ev-pop-only-idle]*/ __CPROVER_ensures((EV_OLD_ST != CAT_UNSOLICITED_STATE_IDLE && E.reent_trig == OLD(E.reent_trig)) ==> (RING_CNT(self) == OLD(RING_CNT(self)) && RING_HEAD(self) == OLD(RING_HEAD(self))))
 /* [C13:ev-pop-head]     */ __CPROVER_ensures((EV_OLD_ST == CAT_UNSOLICITED_STATE_IDLE && OLD(RING_CNT(self)) > 0 && E.reent_trig == OLD(E.reent_trig)) ==> (RING_CNT(self) == OLD(RING_CNT(self)) - 1 && RING_HEAD(self) == (OLD(RING_HEAD(self)) + 1) % H_RING))
 /* [C13:ev-idle-empty]   */ __CPROVER_ensures((EV_OLD_ST == CAT_UNSOLICITED_STATE_IDLE && OLD(RING_CNT(self)) == 0) ==> (p_ev_finished(self) && RET == CAT_STATUS_OK && RING_CNT(self) == 0))
